@@ -26,6 +26,7 @@ const (
 	vShort   = 3
 	vLimit   = 4 // "write limit exceeded"
 	vWClosed = 5 // "closed" from a blocked Write
+	vTimeout = 6 // read deadline of the scripted stream
 	vOther   = 99
 	vHang    = 98
 	vPanic   = 97
@@ -89,7 +90,14 @@ type vstream struct {
 	script []vmsg
 	pos    int
 	// when live is set, Read blocks at the end of the script until more is fed or the stream is closed
-	live   bool
+	live bool
+	// when stepped is set, every Read needs a permit (one per HRecv op of the schedule)
+	stepped     bool
+	permits     chan struct{}
+	readEntered int
+	// when deadlines is set, a live Read returns a timeout error at the read deadline
+	deadlines bool
+	rddl      time.Time
 	wake   chan struct{}
 	closed chan struct{}
 	once   sync.Once
@@ -107,7 +115,7 @@ type vstream struct {
 
 func newVstream(script []vmsg) *vstream {
 	return &vstream{script: script, closed: make(chan struct{}), wake: make(chan struct{}, 1),
-		entered: make(chan struct{}, 16), release: make(chan struct{})}
+		entered: make(chan struct{}, 16), release: make(chan struct{}), permits: make(chan struct{}, 1024)}
 }
 
 func (s *vstream) feed(m vmsg) {
@@ -121,6 +129,17 @@ func (s *vstream) feed(m vmsg) {
 }
 
 func (s *vstream) Read(b []byte) (int, error) {
+	s.mu.Lock()
+	s.readEntered++
+	stepped := s.stepped
+	s.mu.Unlock()
+	if stepped {
+		select {
+		case <-s.permits:
+		case <-s.closed:
+			return 0, verr{vEOS}
+		}
+	}
 	for {
 		s.mu.Lock()
 		if s.pos < len(s.script) {
@@ -138,6 +157,10 @@ func (s *vstream) Read(b []byte) (int, error) {
 			return copy(b, d), err
 		}
 		live := s.live
+		var tmo <-chan time.Time
+		if s.deadlines && !s.rddl.IsZero() {
+			tmo = time.After(time.Until(s.rddl))
+		}
 		s.mu.Unlock()
 		if !live {
 			return 0, verr{vEOS}
@@ -145,6 +168,8 @@ func (s *vstream) Read(b []byte) (int, error) {
 		select {
 		case <-s.closed:
 			return 0, verr{vEOS}
+		case <-tmo:
+			return 0, verr{vTimeout}
 		case <-s.wake:
 		}
 	}
@@ -156,11 +181,7 @@ func (s *vstream) Write(b []byte) (int, error) {
 	s.mu.Unlock()
 	if gate {
 		s.entered <- struct{}{}
-		select {
-		case <-s.release:
-		case <-s.closed:
-			return 0, verr{vEOS}
-		}
+		<-s.release
 	}
 	s.mu.Lock()
 	defer s.mu.Unlock()
@@ -199,7 +220,23 @@ func (s *vstream) BufferedAmount() uint64 {
 	s.baCalls++
 	return s.buffered
 }
-func (s *vstream) SetReadDeadline(time.Time) error { return nil }
+func (s *vstream) SetReadDeadline(t time.Time) error {
+	s.mu.Lock()
+	s.rddl = t
+	s.mu.Unlock()
+	return nil
+}
+
+// foreign adds bytes to the buffered amount without going through SCTPConn.Write
+// (what hbClient.sendLoop does with its heartbeats).
+func (s *vstream) foreign(n uint64) {
+	s.mu.Lock()
+	s.buffered += n
+	if s.buffered > s.maxSeen {
+		s.maxSeen = s.buffered
+	}
+	s.mu.Unlock()
+}
 func (s *vstream) SetBufferedAmountLowThreshold(th uint64) {
 	s.mu.Lock()
 	s.threshold = th
@@ -223,8 +260,37 @@ func (vconn) SetDeadline(time.Time) error      { return nil }
 func (vconn) SetReadDeadline(time.Time) error  { return nil }
 func (vconn) SetWriteDeadline(time.Time) error { return nil }
 
-// goroutineBlockedIn reports whether some goroutine whose stack contains fn is
-// parked in the given wait state ("select", "chan receive", ...).
+// goroutineState looks for a goroutine whose stack contains every string of has
+// and none of hasNot; it returns "" if there is none, "blocked" if it is parked
+// in a select / channel operation, and "running" otherwise.
+func goroutineState(has []string, hasNot []string) string {
+	buf := make([]byte, 4<<20)
+	n := runtime.Stack(buf, true)
+	res := ""
+outer:
+	for _, g := range strings.Split(string(buf[:n]), "\n\n") {
+		for _, h := range has {
+			if !strings.Contains(g, h) {
+				continue outer
+			}
+		}
+		for _, h := range hasNot {
+			if strings.Contains(g, h) {
+				continue outer
+			}
+		}
+		head := g
+		if i := strings.IndexByte(g, '\n'); i >= 0 {
+			head = g[:i]
+		}
+		if strings.Contains(head, "[select") || strings.Contains(head, "[chan receive") || strings.Contains(head, "[chan send") {
+			return "blocked"
+		}
+		res = "running"
+	}
+	return res
+}
+
 func goroutineBlockedIn(fn string, states ...string) bool {
 	buf := make([]byte, 1<<20)
 	n := runtime.Stack(buf, true)
